@@ -31,6 +31,8 @@ type C12Scenario struct {
 	// backing buffer grows past its initial size (and, for 1100, past any plausible "large backlog" threshold) and shrinks again
 	Burst     int `json:"burst"`
 	BurstPops int `json:"burst_pops"`
+	// Shutdown: the directed class "shutdown while an adder retries" (see drawC12)
+	Shutdown bool `json:"shutdown,omitempty"`
 }
 
 type qIn struct {
@@ -299,6 +301,43 @@ func drawC12(rt *rapid.T) interface{} {
 	if sc.Kind == KAsync || sc.Kind == KMux || sc.Kind == KMQ {
 		choices = append(choices, "isclosed")
 	}
+	if (sc.Kind == KQ || sc.Kind == KAsync || sc.Kind == KMux || sc.Kind == KMQ) && sc.Cap >= 1 && rapid.IntRange(0, 19).Draw(rt, "shutdown") == 0 {
+		// shutdown while an adder retries: the queue is filled, one or two tasks sit in a sleep-and-retry add, another task
+		// takes a few items, closes and drains until the queue reports closed
+		next := 1
+		var fill []qOp
+		for i := 0; i < sc.Cap; i++ {
+			fill = append(fill, qOp{Op: "add", V: next})
+			next++
+		}
+		fill = append(fill, qOp{Op: "addanyway", V: next})
+		next++
+		sc.Tasks = append(sc.Tasks, fill)
+		if rapid.Bool().Draw(rt, "second-adder") {
+			op := "addanyway"
+			if sc.Kind == KMQ && rapid.Bool().Draw(rt, "ctrl-adder") {
+				op = "addctrlanyway"
+			}
+			sc.Tasks = append(sc.Tasks, []qOp{{Op: op, V: next}})
+			next++
+		}
+		var closer []qOp
+		for i := rapid.IntRange(0, 2).Draw(rt, "pops"); i > 0; i-- {
+			closer = append(closer, qOp{Op: "pop", V: next})
+			next++
+		}
+		closer = append(closer, qOp{Op: "close", V: next})
+		next++
+		for i := rapid.IntRange(1, sc.Cap+2).Draw(rt, "drains"); i > 0; i-- {
+			closer = append(closer, qOp{Op: "popanyway", V: next})
+			next++
+		}
+		sc.Tasks = append(sc.Tasks, closer)
+		sc.Shutdown = true
+		sc.Knobs = hx.DrawKnobs(rt, nil)
+		sc.Knobs.EagerTimerPermille = rapid.SampledFrom([]int{0, 50, 300, 300}).Draw(rt, "eagertimer")
+		return sc
+	}
 	nt := rapid.IntRange(1, 4).Draw(rt, "ntasks")
 	maxOps := 14 / nt // concurrent histories are kept short: porcupine has to search the orders of overlapping adds,
 	// which only the final drain reveals (26 operations with 12 overlapping adds already cost seconds)
@@ -325,6 +364,8 @@ func drawC12(rt *rapid.T) interface{} {
 		sc.BurstPops = rapid.SampledFrom([]int{sc.Burst, sc.Burst, sc.Burst - 1, sc.Burst / 2}).Draw(rt, "burstpops")
 	}
 	sc.Knobs = hx.DrawKnobs(rt, nil)
+	// "slow task" fault: a sleeping adder (the sleep-and-retry adders) may wake up while other tasks are still runnable
+	sc.Knobs.EagerTimerPermille = rapid.SampledFrom([]int{0, 0, 50, 300}).Draw(rt, "eagertimer")
 	return sc
 }
 
@@ -435,6 +476,9 @@ func runC12(t *testing.T, sci interface{}, keepLog bool) *hx.Outcome {
 			hx.WaitDone(s, ts...)
 			break
 		}
+		if sc.Shutdown {
+			s.Count("shutdown-while-an-adder-retries")
+		}
 		// final drain through the draining API: conservation
 		if q.Has("popanyway") || q.Has("trypop") {
 			drainClosed := false
@@ -499,9 +543,9 @@ func TestC12(t *testing.T) {
 		Real: []string{"queue/syncq", "queue/priq", "syncx/pipe/q", "syncx/pipe/async", "syncx/pipe/mux", "syncx/pipe/mq (simgen-transformed, otherwise unmodified)",
 			"container/list", "eapache/queue", "container/heap", "porcupine v1.3.0"},
 		Stubs: []string{"sync (simsync)", "goroutine scheduling (simrt baton scheduler)"},
-		Rule: "scenario = queue kind x capacity x 1-4 client programs over add/prior-add/ctrl-add/pop/pop-anyway/try-pop/close/try-close/try-clear/len (1 client: up to 40 ops = sequential statement) x scheduler knobs/tape; " +
+		Rule: "scenario = queue kind x capacity x 1-4 client programs over add/prior-add/ctrl-add/pop/pop-anyway/try-pop/close/try-close/try-clear/len (1 client: up to 40 ops = sequential statement; 1 bounded pipe-queue scenario in 20 is the directed class \"shutdown while an adder retries\": queue filled, 1-2 sleep-and-retry adders, a task that pops 0-2, closes and drains) x scheduler knobs/tape x slow-task fault (a sleeper may wake while other tasks are runnable); " +
 			"history checked with porcupine against a list / two-list / priority-list model, then drained through the draining API; non-trivial = >=2 tasks and >=1 context switch (or >=3 ops sequentially); distinct = distinct event-log hash",
-		Probes:      []string{"porcupine-ok", "release-close", "sleep"},
+		Probes:      []string{"porcupine-ok", "release-close", "sleep", "shutdown-while-an-adder-retries", "timer-fired-while-tasks-runnable"},
 		Assumptions: []string{"blocking Pop may linearize only when an item is available or the queue is closed", "try-close/try-clear also report true when already closed/cleared (the code's behaviour; the statement is silent)"},
 	})
 }
